@@ -924,3 +924,13 @@ pub fn gen_case(rng: &mut Prng, op: &str) -> OpCase {
         gen_native_case(rng, op)
     }
 }
+
+/// A qualifier of the input class, appended to violation signatures where one
+/// operation has a recorded finding on a narrow class of inputs (so that the
+/// known-findings entry names that class and nothing else of the operation).
+pub fn input_class(c: &OpCase) -> String {
+    if (c.op == "ec.k256.mul_by_constant" || c.op == "ec.bls.mul_by_constant") && c.bins.first().map(|s| s.as_str()) == Some("0") && c.bigp(0).bits() > 128 {
+        return "[identity base, constant above 128 bits]".into();
+    }
+    String::new()
+}
